@@ -357,6 +357,15 @@ func vfC18Client(K int) {
 	}
 	g.c = c
 	t := &vfTB{}
+	// the application may keep one Modify() handle across calls or ask for a fresh one each time
+	reuse := vfBool("reuse-modify-handle")
+	handle := g.Modify()
+	mod := func() *gRIBIModify {
+		if reuse {
+			return handle
+		}
+		return g.Modify()
+	}
 	type exp struct {
 		typ            spb.AFTOperation_Operation
 		idx            uint64
@@ -369,7 +378,7 @@ func vfC18Client(K int) {
 		if call == 3 {
 			curLo, curHi = vfElec("update")
 			hasCur = true
-			g.Modify().UpdateElectionID(t, curLo, curHi)
+			mod().UpdateElectionID(t, curLo, curHi)
 			continue
 		}
 		n := vfInt("entries", 1, 2)
@@ -398,11 +407,11 @@ func vfC18Client(K int) {
 		}
 		switch call {
 		case 0:
-			g.Modify().AddEntry(t, es...)
+			mod().AddEntry(t, es...)
 		case 1:
-			g.Modify().ReplaceEntry(t, es...)
+			mod().ReplaceEntry(t, es...)
 		case 2:
-			g.Modify().DeleteEntry(t, es...)
+			mod().DeleteEntry(t, es...)
 		}
 	}
 	vfAssert(!t.failed, "C18:queueing-succeeds")
